@@ -372,7 +372,7 @@ type Common struct {
 	Named  interface{}
 	Nameds []interface{}
 	U      interface{}
-	Us     []interface{}
+	Us     []Thing // a slice typed on a Go interface of the application's own (not []interface{}): elements of different concrete types
 
 	Strs []string
 	Ints []int
@@ -380,6 +380,9 @@ type Common struct {
 	Title string // GraphQL "title": differs from the Go name by case only
 	Dual  string // GraphQL "dual": a field and a method (DUAL) both match; the field must win
 }
+
+// Thing is the element type of Common.Us.
+type Thing interface{}
 
 // DUAL must never be called: the struct field Dual answers the GraphQL field dual.
 func (c *Common) DUAL() string { return "METHOD-MUST-NOT-WIN" }
@@ -741,7 +744,10 @@ func (b *fsBuilder) obj(n *Node) interface{} {
 		c.Nameds = b.anys(l)
 	}
 	if l, ok := n.F["us"].([]interface{}); ok {
-		c.Us = b.anys(l)
+		c.Us = make([]Thing, len(l))
+		for i, e := range b.anys(l) {
+			c.Us[i] = e
+		}
 	}
 	if l, ok := n.F["strs"].([]interface{}); ok {
 		c.Strs = make([]string, len(l))
